@@ -194,6 +194,61 @@ def unit(n, where):
     return [("ALocal", local_label(n))]
 
 
+def status_constants(n):
+    """REB_STATUS_* enum constants referenced in the subtree"""
+    return set(x.get("referencedDecl", {}).get("name") for x in walk(n)
+               if x.get("kind") == "DeclRefExpr" and x.get("referencedDecl", {}).get("kind") == "EnumConstantDecl"
+               and x["referencedDecl"].get("name", "").startswith("REB_STATUS_"))
+
+
+def reads_status(n):
+    return any(x.get("kind") == "MemberExpr" and x.get("name") == "status" and x.get("isArrow") and is_simptr(strip(kids(x)[0]))
+               for x in walk(n))
+
+
+def request_triggered(body_stmts, guard_consts):
+    """writes (fields reached through the simulation pointer) and calls inside the regions of a function that are control-dependent
+    on a test of r->status against one of the status values a web-server request can set"""
+    writes, calls, regions = set(), set(), [0]
+
+    def collect(n):
+        regions[0] += 1
+        for x in walk(n):
+            k = x.get("kind")
+            if k == "CallExpr":
+                calls.add(callee(x))
+            elif k in ("BinaryOperator", "CompoundAssignOperator") and (k == "CompoundAssignOperator" or x.get("opcode") == "="):
+                f = lhs_root_through_sim(kids(x)[0])
+                if f:
+                    writes.add("field:" + f)
+            elif k == "UnaryOperator" and x.get("opcode") in ("++", "--"):
+                f = lhs_root_through_sim(kids(x)[0])
+                if f:
+                    writes.add("field:" + f)
+
+    def visit(n):
+        k = n.get("kind")
+        c = kids(n)
+        if k == "IfStmt":
+            if reads_status(c[0]) and (status_constants(c[0]) & guard_consts):
+                collect(c[1])                 # the else branch also runs when no request was made: visited, not collected
+                if len(c) > 2:
+                    visit(c[2])
+                return
+        elif k in ("WhileStmt", "DoStmt", "ForStmt"):
+            conds = c[:-1] if k != "DoStmt" else c[1:]
+            if any(reads_status(x) and (status_constants(x) & guard_consts) for x in conds):
+                collect(c[-1] if k != "DoStmt" else c[0])
+                return
+        elif k in ("SwitchStmt", "ConditionalOperator") and reads_status(c[0]):
+            fail("reb_check_exit: status tested by a %s (not understood)" % k)
+        for x in c:
+            visit(x)
+    for s_ in body_stmts:
+        visit(s_)
+    return sorted(writes), sorted(calls), regions[0]
+
+
 def compute_syncfuns(ast, exclude):
     """fixpoint: functions defined in this translation unit that contain a synchronisation operation, directly or through calls"""
     SYNCFUNS.clear()
@@ -364,8 +419,17 @@ def coq_list(acts):
 
 def main():
     # ------------------------------------------------------------------ integrator thread
+    sast0 = ast_of("server.c")
+    # status values that a request handler can set or tests (what a client can make the integration thread see)
+    guard_consts = status_constants(function(sast0, "reb_server_start"))
+    if not guard_consts:
+        fail("no REB_STATUS_* constant in reb_server_start")
     ast = ast_of("rebound.c")
     compute_syncfuns(ast, exclude={"reb_simulation_integrate_raw", "reb_simulation_integrate"})
+    rt_writes, rt_calls, rt_regions = request_triggered(kids(function(ast, "reb_check_exit")), guard_consts)
+    # ... and the same for reb_simulation_integrate_raw itself (its prologue keeps a paused simulation paused)
+    w2, c2, n2 = request_triggered(kids(function(ast, "reb_simulation_integrate_raw")), guard_consts)
+    rt_writes = sorted(set(rt_writes) | set(w2)); rt_calls = sorted(set(rt_calls) | set(c2)); rt_regions += n2
     body = kids(function(ast, "reb_simulation_integrate_raw"))
     if body and body[-1].get("kind") == "ReturnStmt" and not has_sync(body[-1]) and not sim_write_label(body[-1]):
         body = body[:-1]          # the function's final `return`
@@ -506,6 +570,12 @@ def main():
            "Definition integ_prologue : list act := %s." % coq_list(pro),
            "(* one block per control-flow path through the loop condition reb_check_exit (branches are split only where they synchronise) *)",
            "Definition integ_loop_heads : list (list act) := [\n  %s]." % ";\n  ".join(coq_list(h) for h in heads),
+           "(* status values a request handler of server.c sets or tests *)",
+           "Definition request_guard_constants : list string := [%s]." % "; ".join(qs(c) for c in sorted(guard_consts)),
+           "(* inside the %d regions of reb_check_exit / reb_simulation_integrate_raw that are control-dependent on a test of r->status against one of them: *)" % rt_regions,
+           "Definition request_triggered_writes : list string := [%s]." % "; ".join(qs(c) for c in rt_writes),
+           "Definition request_triggered_calls : list string := [%s]." % "; ".join(qs(c) for c in rt_calls),
+           "Definition request_triggered_regions : nat := %d." % rt_regions,
            "(* (caller, callee) for every call in rebound.c to a function that operates a pthread mutex directly or through helpers *)",
            "Definition mutex_callers : list (string * string) := [%s]." % "; ".join("(%s, %s)" % (qs(a), qs(b)) for a, b in mutex_callers),
            "(* functions of rebound.c that contain synchronisation and are inlined where the modelled programs call them *)",
